@@ -8,6 +8,10 @@ import (
 
 	"github.com/cloudflare/pat-go/ecdsa"
 	"github.com/cloudflare/pat-go/ed25519"
+	"github.com/cloudflare/pat-go/tokens"
+	"github.com/cloudflare/pat-go/tokens/batched"
+	"github.com/cloudflare/pat-go/tokens/type1"
+	"github.com/cloudflare/pat-go/tokens/type2"
 
 	"verif/internal/arena"
 	"verif/internal/core"
@@ -105,6 +109,7 @@ func (c c16) run(p *core.Plan, res *core.Result, spare int, poison byte, judge b
 	w.ReuseDecoder = p.C("reuse", 0) == 1
 	world.NewPlanAdversary(w)
 	watches := map[int][]watch{}
+	var global []watch
 	add := func(s *world.Session, name string, b []byte) {
 		watches[s.ID] = append(watches[s.ID], watch{name, arena.NewWatch(name, b)})
 	}
@@ -128,7 +133,16 @@ func (c c16) run(p *core.Plan, res *core.Result, spare int, poison byte, judge b
 				wt.w.Snap = append([]byte(nil), wt.w.Ref...)
 			}
 		}
-		if len(watches[s.ID]) > 0 {
+		for _, wt := range global {
+			if wt.w.Changed() {
+				res.Violate("C16/earlier-result-changed/reused-decoder-encoding", fmt.Sprintf("%s changed during a later %s of session %d (first difference at byte %d)", wt.name, o.Op, s.ID, firstDiff(wt.w.Ref, wt.w.Snap)), -1)
+				wt.w.Snap = append([]byte(nil), wt.w.Ref...)
+			}
+		}
+		for _, h := range o.Handed {
+			global = append(global, watch{h.Name, arena.NewWatch(h.Name, h.Bytes)})
+		}
+		if len(watches[s.ID]) > 0 || len(global) > 0 {
 			res.Probe("a later call ran on an object whose earlier results are watched")
 		}
 		if o.Err != nil || o.Panic != nil {
@@ -185,6 +199,7 @@ func (c c16) run(p *core.Plan, res *core.Result, spare int, poison byte, judge b
 		res.Infra = "step budget exhausted"
 	}
 	c.direct(p, w, res, spare, poison, judge)
+	c.hostileDecode(p, w, res, spare, poison, judge)
 	return w.Log.Hash(), w
 }
 
@@ -307,6 +322,96 @@ func (c c16) direct(p *core.Plan, w *world.World, res *core.Result, spare int, p
 		}
 		for _, d := range ar.Audit() {
 			res.Violate("C16/argument-written/direct/"+name, fmt.Sprintf("%s: %s", name, d), si)
+		}
+	}
+}
+
+// hostileDecode feeds truncations and overshooting length prefixes of the run's honest
+// messages to the decoders, with the input in an arena buffer: arguments are audited, and the
+// outcome (accepted?, canonical re-encoding of what was decoded) goes into the event log, so
+// that the second execution under another spare-capacity layout exposes any dependence of a
+// result on bytes behind the argument.
+func (c c16) hostileDecode(p *core.Plan, w *world.World, res *core.Result, spare int, poison byte, judge bool) {
+	type target struct {
+		name string
+		base []byte
+		dec  func(b []byte) (bool, []byte)
+	}
+	var ts []target
+	cs := codecs()
+	mk := func(name string, base []byte) {
+		cd := cs[name]
+		ts = append(ts, target{name, base, func(b []byte) (bool, []byte) {
+			v, ok := cd.decode(b)
+			if !ok {
+				return false, nil
+			}
+			return true, cd.encode(v)
+		}})
+	}
+	for _, id := range w.Order {
+		s := w.Sessions[id]
+		if s.ReqBytes == nil {
+			continue
+		}
+		mk(fmt.Sprintf("Request%d", s.Type), s.ReqBytes)
+		if len(s.Tokens) > 0 {
+			mk(fmt.Sprintf("Token%d", s.Type), s.Tokens[0].Marshal())
+		}
+		if len(ts) >= 6 {
+			break
+		}
+	}
+	if len(w.I1) > 0 && len(w.I2) > 0 {
+		// a generic batch: request list and response list
+		w.Ent.Begin("client", "c16/batch")
+		s1, e1 := type1.BasicPrivateClient{}.CreateTokenRequest([]byte("c"), make([]byte, 32), w.I1[0].KeyID, w.I1[0].Iss.TokenKey())
+		s2, e2 := type2.BasicPublicClient{}.CreateTokenRequest([]byte("c"), make([]byte, 32), w.I2[0].KeyID, &w.I2[0].Key.PublicKey)
+		if e1 == nil && e2 == nil {
+			if br, err := batched.NewBasicClient().CreateTokenRequest([]tokens.TokenRequestWithDetails{s1.Request(), s2.Request()}); err == nil {
+				wire := append([]byte(nil), br.Marshal()...)
+				mk("BatchRequest", wire)
+				bi := batched.NewBasicBatchedIssuer(world.Adapter1{I: w.I1[0].Iss}, world.Adapter2{I: w.I2[0].Iss})
+				dec := new(batched.BatchedTokenRequest)
+				w.Ent.Begin("batchissuer", "c16/batch")
+				if dec.Unmarshal(wire) {
+					if resp, err := bi.EvaluateBatch(dec); err == nil {
+						mk("BatchResponses", resp)
+					}
+				}
+			}
+		}
+	}
+	for _, t := range ts {
+		var inputs [][]byte
+		n := len(t.base)
+		for k := n - 1; k >= 0 && k >= n-12; k-- { // the last truncations: declared lengths overshoot by 1..12 bytes
+			inputs = append(inputs, t.base[:k])
+		}
+		for k := 0; k < n && k < 12; k++ {
+			inputs = append(inputs, t.base[:k])
+		}
+		for _, in := range inputs {
+			ar := arena.New(arena.Layout{Spare: spare, Poison: poison, Guard: 0x5C})
+			data := ar.Put("peer-bytes", in)
+			var ok bool
+			var out []byte
+			pv := safely(func() { ok, out = t.dec(data) })
+			if pv != nil {
+				w.Log.Add("hostile-decode %s len=%d panic", t.name, len(in))
+			} else {
+				w.Log.Add("hostile-decode %s len=%d ok=%v out=%s", t.name, len(in), ok, core.H(out))
+			}
+			if !judge {
+				continue
+			}
+			res.Evals++
+			if spare > 0 {
+				res.Nontrivial(fmt.Sprintf("hostile-decode/%s/spare%d", t.name, spare))
+			}
+			for _, d := range ar.Audit() {
+				res.Violate("C16/argument-written/decode/"+t.name, d, -1)
+			}
 		}
 	}
 }
